@@ -76,8 +76,7 @@ ApplySO(st, op) ==
     [] op.o \in {"setslice0", "setslice1", "setslice2"} ->
          LET vals == IF op.o = "setslice0" THEN <<>> ELSE IF op.o = "setslice1" THEN <<7>> ELSE <<7, 8>>
              lo == SliceLo(n, op.i)  hi == SliceHi(n, op.i, op.v)
-         IN IF st.schema /\ vals = <<>> THEN Either(st)       \* nothing assigned to a schema object: status not specified
-            ELSE Good([schema |-> FALSE, el |-> SubSeq(st.el, 1, lo) \o vals \o SubSeq(st.el, hi + 1, n)], NORET)
+         IN Good([schema |-> FALSE, el |-> SubSeq(st.el, 1, lo) \o vals \o SubSeq(st.el, hi + 1, n)], NORET)
     [] op.o = "getitem" ->                  \* s[i]: existing member is a pure read; s[len] instantiates a placeholder
          LET i == NormIdx(st, op.i) IN
          IF i < 0 \/ i > n THEN Bad
@@ -113,7 +112,16 @@ ApplyCH(st, op) ==
     [] op.o = "getComponent" -> IF st.cur = 0 THEN Bad ELSE Good(st, st.val)
     [] op.o = "len" -> Good(st, IF st.cur = 0 THEN 0 ELSE 1)
     [] op.o = "contains" -> IF op.i < 0 \/ op.i >= NAlt THEN Good(st, 0) ELSE Good(st, IF st.cur = op.i + 1 THEN 1 ELSE 0)
-    [] op.o \in {"iter", "prettyPrint", "eq", "encode", "clone", "cloneschema"} -> Good(st, NORET)
+    [] op.o = "eq" -> IF st.val = PH THEN Either(st) ELSE Good(st, NORET)     \* comparing a valueless member: no answer
+    [] op.o \in {"iter", "prettyPrint", "encode", "clone", "cloneschema"} -> Good(st, NORET)
+
+(* Named deviation F18 (open finding, pinned by the read-to-select idiom choice['alt']['f'] = x): reading an        *)
+(* alternative that is not the selected one SELECTS it, as a valueless placeholder, and drops the previous value.   *)
+(* ApplyCHLib reproduces that exactly, so that the acceptor can attribute it and keep judging the history.          *)
+ApplyCHLib(st, op) ==
+  IF op.o \in {"getitem", "getbyname"} /\ op.i >= 0 /\ op.i < NAlt /\ st.cur # op.i + 1
+  THEN Good([cur |-> op.i + 1, val |-> PH], PH)
+  ELSE ApplyCH(st, op)
 
 (***************************************************************************)
 (* SEQUENCE { a INTEGER, b INTEGER OPTIONAL, c INTEGER DEFAULT DfltC }     *)
